@@ -251,7 +251,7 @@ fn field_of(msg_fields: &[Fr; 5], f: usize) -> Fr {
 pub fn c02_menu(rng: &mut Prng, thorough: bool, signal: &[u8]) -> Vec<Alter> {
     let mut menu = Vec::new();
     for f in 0..5usize {
-        for (note, kind) in [("zero", 0), ("one", 1), ("plus1", 2), ("pminus1", 3), ("random", 4), ("other_msg", 5)] {
+        for (note, kind) in [("zero", 0), ("one", 1), ("plus1", 2), ("pminus1", 3), ("random", 4), ("other_msg", 5), ("hi", 6), ("mid", 7)] {
             // bytes are filled in at run time for value-dependent kinds; encode the kind in the note
             let bytes = match kind {
                 0 => fr_to_le32(&Fr::from(0u64)).to_vec(),
@@ -276,6 +276,16 @@ pub fn c02_menu(rng: &mut Prng, thorough: bool, signal: &[u8]) -> Vec<Alter> {
         s1[k] ^= 1 << rng.below(8);
     }
     menu.push(Alter::Signal { bytes: s1 });
+    if signal.len() > 1 {
+        // first and last byte
+        let mut a = signal.to_vec();
+        a[0] ^= 0x80;
+        menu.push(Alter::Signal { bytes: a });
+        let mut z = signal.to_vec();
+        let l = z.len() - 1;
+        z[l] ^= 0x01;
+        menu.push(Alter::Signal { bytes: z });
+    }
     let mut s2 = signal.to_vec();
     s2.push(0);
     menu.push(Alter::Signal { bytes: s2 });
@@ -590,7 +600,7 @@ fn gen_c13(rng: &mut Prng, seed: u64, thorough: bool) -> Trace {
     // secret recovery from a message and a copy with one public value changed (same x and a different y among them: two
     // shares that define no line), through every value-dependent and constant replacement
     for f in 0..5usize {
-        for (bytes, note) in [(Vec::new(), "plus1".to_string()), (Vec::new(), "alias:1".to_string()), (vec![0u8; 32], "zero".to_string()),
+        for (bytes, note) in [(Vec::new(), "plus1".to_string()), (Vec::new(), "hi".to_string()), (Vec::new(), "alias:1".to_string()), (vec![0u8; 32], "zero".to_string()),
                               (vec![0xffu8; 32], "ff".to_string()), (fr_to_le32(&gen_fr(rng)).to_vec(), "random".to_string())] {
             let alt = Alter::Field { f, bytes, note };
             if rng.chance(1, 2) {
@@ -631,6 +641,20 @@ pub fn resolve_alter(a: &Alter, msg: &[u8], other: Option<&[u8]>) -> Option<Alte
             let cur = field_of(&fields, *f);
             if note == "plus1" {
                 Some(Alter::Field { f: *f, bytes: fr_to_le32(&(cur + Fr::from(1u64))).to_vec(), note: note.clone() })
+            } else if note == "hi" || note == "mid" {
+                // the value whose encoding differs from the original in one bit of the most significant byte (or of byte 16),
+                // taken the way that stays below the field order: what a comparison that skips a byte would let through
+                let mut b = fr_to_le32(&cur);
+                let k = if note == "hi" { 31 } else { 16 };
+                b[k] ^= 1;
+                if fr_to_le32(&fr_from_le(&b)) != b {
+                    b[k] ^= 1;
+                    b[k] ^= 2;
+                    if fr_to_le32(&fr_from_le(&b)) != b {
+                        return None;
+                    }
+                }
+                Some(Alter::Field { f: *f, bytes: b.to_vec(), note: note.clone() })
             } else if note == "other_msg" {
                 let o = other?;
                 let po = dec_values(o)?;
